@@ -14,7 +14,8 @@
    live and backed with the same room afterwards; the built-in pools exist after every seal.
    NOT proved: that no faucet of a test network ever mints a liquidity token (it is a hypothesis of the batch
    invariant: faucets of test networks can mint any denomination). *)
-From MelVerif Require Import STF.Model STF.Proofs.Supply STF.Proofs.Pool STF.Proofs.SealCoins STF.Proofs.BatchSupply STF.Proofs.SealSupply STF.Proofs.SealLift STF.Proofs.SealInv STF.Proofs.HashFacts STF.Proofs.Witness STF.Proofs.Witness2 STF.Proofs.Witness3 STF.Proofs.Witness4.
+From MelVerif Require Import STF.Model STF.Proofs.Supply STF.Proofs.Pool STF.Proofs.SealCoins STF.Proofs.BatchSupply STF.Proofs.SealSupply STF.Proofs.SealLift STF.Proofs.SealInv STF.Proofs.HashFacts STF.Proofs.Witness STF.Proofs.Witness2 STF.Proofs.Witness3 STF.Proofs.Witness4
+  STF.Proofs.SealCounts STF.Proofs.History STF.Proofs.PoolHistory.
 Open Scope N_scope.
 
 (* swapping leaves both reserves of a live pool positive and the issued liquidity unchanged *)
@@ -220,3 +221,49 @@ Proof.
   split; [exact w_K3_codes|]. split; [exact w_K3_builtins|]. split; [exact w_LD_inj|]. split; [exact w_seal_ok|]. exact w_backed.
 Qed.
 
+
+(* ---- whole histories ([hstep], [hist_all]: see Properties/C20.v).
+   [Backed K SO k s]: the pool k exists, is live, and its liquidity token is backed with room to spare. *)
+Theorem C16_backed_def : forall K SO k s,
+  Backed K SO k s <->
+  exists p, get_pool s k = Some p /\ live p /\ coin_supply (LDk SO k) (s_coins s) + psum K (LDk SO k) s + 1 <= p_liqs p.
+Proof. exact backed_def. Qed.
+Print Assumptions C16_backed_def.
+
+(* per step: a batch satisfies the hash-oracle assumptions and issues none of the token; a block boundary
+   satisfies the side conditions of [C16_seal_invariant] *)
+Theorem C16_step_assumptions_def : forall K SO k s o,
+  pool_step_ok K SO k s o <->
+  match o with
+  | HBatch lh txs => HashOK SO s txs /\ batch_issuance (LDk SO k) txs = 0
+  | HBlock a hdr => seal_premises K SO s
+  end.
+Proof. exact pool_step_ok_def. Qed.
+Print Assumptions C16_step_assumptions_def.
+Theorem C16_seal_premises_def : forall K SO s,
+  seal_premises K SO s <->
+  legacy_net s && (s_height s <? 978392) = false /\
+  (forall t k1, In t (sorted_txs s) -> tx_pool t = Some k1 -> In k1 K /\ LDk SO k1 <> fst k1 /\ LDk SO k1 <> snd k1) /\
+  NoDup (key_pairs (sorted_txs s)) /\
+  (forall t c, In t (sorted_txs s) -> s_coins s !! key0 t = Some c -> as_declared c (out0 t)) /\
+  (forall t c, In t (sorted_txs s) -> s_coins s !! key1 t = Some c -> as_declared c (out1 t)) /\
+  nsum (map (fun t => cd_value (out0 t)) (sorted_txs s)) < U128 /\
+  nsum (map (fun t => cd_value (out1 t)) (sorted_txs s)) < U128 /\
+  (forall s2 s3, process_swaps (create_builtins s) = Ok s2 -> process_deposits SO s2 = Ok s3 ->
+     (forall k1 p'' m, In k1 K ->
+        pool_deposit (pool_at s2 k1)
+          (nsum (map (fun t => cd_value (out0 t)) (txs_for_pool (List.filter (is_deposit_request s2) (sorted_txs s2)) k1)))
+          (nsum (map (fun t => cd_value (out1 t)) (txs_for_pool (List.filter (is_deposit_request s2) (sorted_txs s2)) k1))) = Ok (p'', m) ->
+        p_liqs (pool_at s2 k1) + m < U128) /\
+     (forall k1 p1, In k1 K -> get_pool s3 k1 = Some p1 -> p_lefts p1 < U128 /\ p_rights p1 < U128)).
+Proof. exact seal_premises_def. Qed.
+Print Assumptions C16_seal_premises_def.
+
+(* C16: a pool that exists, is live and is backed with room - as each built-in pool is from its creation - exists,
+   is live and is backed in every later state of every history *)
+Theorem C16_every_reachable_state : forall K, NoDup (map poolkey_code K) -> forall SO, In MS K /\ In ME K /\ In ES K ->
+  (forall k1 k2, In k1 K -> In k2 K -> LDk SO k1 = LDk SO k2 -> k1 = k2) ->
+  forall k, In k K -> forall ops s,
+  Backed K SO k s -> hist_all SO (pool_step_ok K SO k) s ops -> Backed K SO k (fold_left (hstep SO) ops s).
+Proof. exact pool_backed_forever. Qed.
+Print Assumptions C16_every_reachable_state.
